@@ -439,7 +439,17 @@ theorem canAcceptBasic_eq {w : World} (h : PartsLeaf w) (x p : Nat) :
     w.canAcceptBasic x p = accB (w.dev x) := by
   unfold canAcceptBasic accB
   simp only [operational_eq, h.leafCount]
-  cases (w.dev x).kind <;> rfl
+  cases (w.dev x).kind <;> try rfl
+  cases (w.dev x).cap with
+  | none => rfl
+  | some c =>
+    have : (decide ((w.dev x).level + 1 ≤ c) && decide ((w.dev x).level < c))
+        = decide ((w.dev x).level + 1 ≤ c) := by
+      by_cases hc : (w.dev x).level + 1 ≤ c
+      · have : (w.dev x).level < c := by omega
+        simp [hc, this]
+      · simp [hc]
+    simp only [this]
 
 /-- **wouldAccept**: the Boolean answer `give` would return, computed without changing anything. -/
 def wouldAccept : Nat → World → Nat → Nat → Bool
